@@ -796,6 +796,7 @@ def run_history(case, ctx):
                         sub={**sub, "failing_call": pos},
                     )
                     break
+            ctx.outcome(("history", [HIST_LISTS[i] for i in word], [len(base[i]) if not isinstance(base[i], (Exc, str)) else "refused" for i in word]))
             ctx.state(("history", method, layout, [list(x) for x in syms], word), nontrivial=len(set(word)) > 1)
         ctx.stratum(f"history/{method}/words of {depth} calls on one table object")
     ctx.sample("history", sub)
@@ -849,6 +850,7 @@ def run_cli_history(case, ctx):
                         sub={**sub, "failing_command": pos},
                     )
                     break
+            ctx.outcome(("cli-history", [CLI_LISTS[i] for i in word], [len(base[i]) if not isinstance(base[i], (Exc, str)) else "refused" for i in word]))
             ctx.state(("cli-history", method, layout, [list(x) for x in syms], word), nontrivial=len(set(word)) > 1)
         ctx.stratum(f"cli-history/{method}/words of {case['depth']} command lines in one process")
     ctx.sample("cli-history", sub)
